@@ -140,7 +140,9 @@ func parseLinkReferenceDefinition(block text.Reader, pc Context) (int, int) {
 		if !isNewLine {
 			return -1, -1
 		}
-		ref := NewReference(label, destination, title)
+		// the title candidate is followed by other characters: it is not a
+		// title, and its line is not a part of the definition.
+		ref := NewReference(label, destination, nil)
 		pc.AddReference(ref)
 		return startLine, endLine
 	}
